@@ -35,6 +35,16 @@ Theorem C20_capped_le_uncapped_pointwise_partial : forall chi1 chi2 late n order
 Proof. exact run_mono. Qed.
 Print Assumptions C20_capped_le_uncapped_pointwise_partial.
 
+(* capped_le_uncapped at the level of the tracker: the estimated largest tensor and the
+   estimated write of the run with the smaller cap never exceed those of the run with the
+   larger cap (in particular the uncapped one), for every network, traversal, compress_late *)
+Theorem C20_capped_le_uncapped_max_write : forall chi1 chi2 late n order,
+  (0 <= chi1 <= chi2)%Z -> (forall e, (0 <= zget e (szd n))%Z) ->
+  (t_max (cs_tr (ccs_run chi1 late n order)) <= t_max (cs_tr (ccs_run chi2 late n order)))%Z /\
+  (t_write (cs_tr (ccs_run chi1 late n order)) <= t_write (cs_tr (ccs_run chi2 late n order)))%Z.
+Proof. exact run_mono_max_write. Qed.
+Print Assumptions C20_capped_le_uncapped_max_write.
+
 (* ... hence every tensor (node) is at most as large *)
 Theorem C20_node_sizes_monotone : forall g1 g2 i, sz_le g1 g2 ->
   (0 <= hg_node_size g1 i <= hg_node_size g2 i)%Z.
